@@ -19,9 +19,9 @@ THEOREMS = [
     "C09_table_ok", "C09_int_roundtrip", "C09_extent", "C09_atomic",
     "C09_readback_scalar", "C09_readback_index", "C09_readback_whole", "C09_readback_sarr_index",
     "C09_readback_sarr_whole", "C09_refuse",
-    "C09_narrow_is_flocq", "C09_float_nearest", "C09_float_overflow_refused",
+    "C09_narrow_is_flocq", "C09_float_nearest", "C09_float_overflow_refused", "C09_float_inf_refused",
     "C09_flag", "C09_flag_threads_independent",
-    "C09_ex_accept", "C09_ex_refuse", "C09_ex_slice", "C09_ex_ctypes_array", "C09_ex_nan_neighbour", "C09_ex_float_array", "C09_ex_flag",
+    "C09_ex_accept", "C09_ex_refuse", "C09_ex_slice", "C09_ex_ctypes_array", "C09_ex_nan_neighbour", "C09_ex_inf_in_sequence", "C09_ex_float_array", "C09_ex_flag",
 ]
 
 NAN = 0x7FF8000000000000
@@ -339,6 +339,24 @@ def gen_ops(L: Layouts, idx: Dict[str, int], rng: random.Random, tier: str) -> L
             if tier == "thorough" or Ln in (1, 2, 4):
                 for v, key, en, tag in carr_values(k, Ln, rng):
                     arr_ops.append((cname, "a", v, key, en, tag))
+            if k in FLOAT_KINDS:
+                # +inf / -inf at every position of msg.arr = .., arr[:] = .. and of every 2-element partial slice,
+                # with finite and with NaN neighbours
+                okv = V_float(1.5)
+                for infv in (V_fbits(INF), V_fbits(NINF)):
+                    for nbv in (okv, nanv):
+                        for p in range(Ln):
+                            items = [nbv] * Ln
+                            items[p] = infv
+                            for key in (None, ["s", None, None, None]):
+                                arr_ops.append((cname, "a", V_list(items), key, True, "arr-inf"))
+                        for st in range(0, Ln - 1):
+                            for p in range(2):
+                                items = [nbv, nbv]
+                                items[p] = infv
+                                arr_ops.append((cname, "a", V_list(items), ["s", st, st + 2, None], True, "arr-inf"))
+                    for i in range(Ln):
+                        arr_ops.append((cname, "a", infv, ["i", i], True, "arr-inf"))
             if k == "Byte":
                 for key in (None, ["i", 0], ["s", 0, 1, None], ["s", 0, 2, None]):
                     for v in (V_bytes(b"\x07"), V_bytes(b"\x07\x08"), V_bytes(b""), V_bytes(bytes([9] * Ln)),
@@ -386,7 +404,7 @@ def gen_ops(L: Layouts, idx: Dict[str, int], rng: random.Random, tier: str) -> L
             for en in (True, False):
                 arr_ops.append((cname, "sa", val, None, en, "sarr-from-array"))
     quick_keep = {"arr-valid", "sarr-valid", "struct", "sarr-one-bad", "sarr-key", "sarr-from-array", "bytearray"}
-    quick_keep |= {a[5] for a in arr_ops if a[5].startswith("carr-")}
+    quick_keep |= {a[5] for a in arr_ops if a[5].startswith("carr-")} | {"arr-inf"}
     if tier == "quick":
         keep = lambda a: a[5] in quick_keep or (a[5] == "arr-one-bad" and a[0].endswith(("_2", "_3")))
         must = [a for a in arr_ops if keep(a)]
@@ -458,8 +476,10 @@ def elem_ood(kind: str, v) -> Optional[bool]:
         if t == "numlike":
             return None
         if t == "float":
-            if _is_nan_bits(v[1]) or _is_inf_bits(v[1]):
+            if _is_nan_bits(v[1]):
                 return None
+            if _is_inf_bits(v[1]):
+                return True       # the value read back must be finite: an explicit infinity is out of domain
             x = abs(f64_from_bits(v[1]))
             return kind == "Float" and x >= F32_OVERFLOW
         if _is_int(v):
